@@ -87,10 +87,16 @@ def same_tuple(a, b):
     return a is not None and b is not None and len(a) == len(b) and all(close(x, y) for x, y in zip(a, b))
 
 
+_FORM = [0]
+
+
 def call_dihedral(ru, args, M, bo=None, rules=None):
     try:
         if M == 1 and bo is None and rules is None:
             return ("value", ru.dihedral_params(*args))
+        _FORM[0] += 1
+        if _FORM[0] % 3 == 0:
+            return ("value", ru.dihedral_params(args[0], args[1], args[2], args[3], M, bo, rules))      # every argument by position, documented order
         return ("value", ru.dihedral_params(*args, num_dihedrals_about_bond=M, bond_order=bo, bond_order_rules=rules))
     except Exception as e:
         if type(e).__name__ == "PostBroken":
@@ -137,7 +143,11 @@ def check_angle(ru, tab, args, bos, rules, ctx, st):
     else:
         got = ru.angle_params(*args, bond_orders=list(bos), bond_order_rules=rules)
     exp = uffref.angle(tab, *args, bos=bos, rules=rules)
-    rev = ru.angle_params(*reversed(args), bond_orders=list(reversed(bos)), bond_order_rules=rules)
+    _FORM[0] += 1
+    if _FORM[0] % 3 == 0:
+        rev = ru.angle_params(args[2], args[1], args[0], list(reversed(bos)), rules)      # by position
+    else:
+        rev = ru.angle_params(*reversed(args), bond_orders=list(reversed(bos)), bond_order_rules=rules)
     st.count("angle_evaluations")
     w = {"types": list(args), "bond_orders": list(bos)}
     if not same_tuple(got, exp):
@@ -171,7 +181,7 @@ def run_case(case, ctx):
                 for rules in (RULESETS if bo is None else [None]):
                     got = ru.bond_params(a1, a2) if (bo is None and rules is None) else ru.bond_params(a1, a2, bond_order=bo, bond_order_rules=rules)
                     exp = uffref.bond(tab, a1, a2, bo, rules)
-                    rev = ru.bond_params(a2, a1, bond_order=bo, bond_order_rules=rules)
+                    rev = ru.bond_params(a2, a1, bo, rules) if (len(a1) + len(a2)) % 2 else ru.bond_params(a2, a1, bond_order=bo, bond_order_rules=rules)
                     st.count("bond_evaluations")
                     w = {"types": [a1, a2], "bond_order": bo}
                     if not same_tuple(got, exp):
